@@ -173,7 +173,7 @@ def table(obj, pydict, proto_is_long=None):
     if isinstance(obj, int):
         return ("int", obj)
     if isinstance(obj, float):
-        return ("D", V.f64bits(obj))
+        return ("D", 0x7ff8000000000000 if obj != obj else V.f64bits(obj))    # NaN: the class, not the payload
     if isinstance(obj, str):
         return ("S", obj.encode("utf-8", "surrogatepass"))
     if isinstance(obj, bytes):
@@ -212,6 +212,8 @@ def _ia(v):
     k = v[0]
     if k in ("I", "L"):
         return f"J{v[1]}"
+    if k == "D" and V.is_nan_bits(v[1]):
+        return "D7ff8000000000000"
     if k in ("l", "t"):
         return k + "( " + "".join(_ia(x) + " " for x in v[1]) + ")"
     if k in ("m", "d"):
